@@ -135,6 +135,16 @@ Theorem C19_depolarize_rate_range_real :
 Proof. exact rate_range_real. Qed.
 Print Assumptions C19_depolarize_rate_range_real.
 
+(* which parameters are channels: the value handed to cirq.depolarize is a probability exactly when
+   0 <= p <= 4^k/(4^k-1).  So every p in [0,1] is accepted, p in (1, 4^k/(4^k-1)] is a valid channel too (the
+   algebraic theorems above hold for every ring element p, hence on this whole range), and only p outside
+   [0, 4^k/(4^k-1)] has to be rejected (cirq's constructor does it when the noisy circuit is translated). *)
+Theorem C19_depolarize_channel_range_real :
+  forall (p : R) (k : nat), (1 <= k)%nat ->
+    ((0 <= depol_rate_R p k <= 1)%R <-> (0 <= p <= 4 ^ k / (4 ^ k - 1))%R).
+Proof. exact rate_channel_range_real. Qed.
+Print Assumptions C19_depolarize_channel_range_real.
+
 Theorem C19_model_rate_is_source_expression :
   forall (p : R) (k : nat),
     tangelo_rate CRealS (RtoC p) k = RtoC (depol_rate_R p k)
